@@ -2,9 +2,10 @@ package single
 
 import (
 	"context"
-	"encoding/hex"
 	"errors"
 	"fmt"
+	"sort"
+	"strconv"
 	"sync"
 
 	ds "github.com/ipfs/go-datastore"
@@ -24,10 +25,34 @@ func newPrefixKV(kvStore ds.Batching, prefix string) ds.Batching {
 	return ktds.Wrap(kvStore, ktds.PrefixTransform{Prefix: ds.NewKey(prefix)})
 }
 
+// seqKeyLen is the length of a WAL key: the zero-padded decimal sequence number of the batch,
+// so that the lexicographic order of the keys is the order in which the batches were accepted.
+const seqKeyLen = 20
+
+func seqKey(seq uint64) ds.Key {
+	return ds.NewKey(fmt.Sprintf("%0*d", seqKeyLen, seq))
+}
+
+// parseSeqKey returns the sequence number encoded in a WAL key, or false for any other key
+// (e.g. a record written by an older version, which used the batch hash as key).
+func parseSeqKey(key ds.Key) (uint64, bool) {
+	name := key.BaseNamespace()
+	if len(name) != seqKeyLen || key.String() != "/"+name {
+		return 0, false
+	}
+	seq, err := strconv.ParseUint(name, 10, 64)
+	if err != nil {
+		return 0, false
+	}
+	return seq, true
+}
+
 // BatchQueue implements a persistent queue for transaction batches
 type BatchQueue struct {
 	queue        []coresequencer.Batch
-	maxQueueSize int // maximum number of batches allowed in queue (0 = unlimited)
+	keys         []ds.Key // keys[i] is the WAL key of queue[i]
+	nextSeq      uint64   // sequence number of the next accepted batch
+	maxQueueSize int      // maximum number of batches allowed in queue (0 = unlimited)
 	mu           sync.Mutex
 	db           ds.Batching
 }
@@ -53,11 +78,10 @@ func (bq *BatchQueue) AddBatch(ctx context.Context, batch coresequencer.Batch) e
 		return ErrQueueFull
 	}
 
-	hash, err := batch.Hash()
-	if err != nil {
-		return err
-	}
-	key := hex.EncodeToString(hash)
+	// The WAL key is the position of the batch in the accepted sequence, never its content:
+	// two batches with identical contents are two records, and reloading in key order
+	// restores the order of acceptance.
+	key := seqKey(bq.nextSeq)
 
 	pbBatch := &pb.Batch{
 		Txs: batch.Transactions,
@@ -69,12 +93,14 @@ func (bq *BatchQueue) AddBatch(ctx context.Context, batch coresequencer.Batch) e
 	}
 
 	// First write to DB for durability
-	if err := bq.db.Put(ctx, ds.NewKey(key), encodedBatch); err != nil {
+	if err := bq.db.Put(ctx, key, encodedBatch); err != nil {
 		return err
 	}
 
 	// Then add to in-memory queue
 	bq.queue = append(bq.queue, batch)
+	bq.keys = append(bq.keys, key)
+	bq.nextSeq++
 
 	return nil
 }
@@ -89,16 +115,12 @@ func (bq *BatchQueue) Next(ctx context.Context) (*coresequencer.Batch, error) {
 	}
 
 	batch := bq.queue[0]
+	key := bq.keys[0]
 	bq.queue = bq.queue[1:]
-
-	hash, err := batch.Hash()
-	if err != nil {
-		return &coresequencer.Batch{Transactions: nil}, err
-	}
-	key := hex.EncodeToString(hash)
+	bq.keys = bq.keys[1:]
 
 	// Delete the batch from the WAL since it's been processed
-	err = bq.db.Delete(ctx, ds.NewKey(key))
+	err := bq.db.Delete(ctx, key)
 	if err != nil {
 		// Log the error but continue
 		fmt.Printf("Error deleting processed batch: %v\n", err)
@@ -114,6 +136,8 @@ func (bq *BatchQueue) Load(ctx context.Context) error {
 
 	// Clear the current queue
 	bq.queue = make([]coresequencer.Batch, 0)
+	bq.keys = nil
+	bq.nextSeq = 0
 
 	q := query.Query{}
 	results, err := bq.db.Query(ctx, q)
@@ -121,6 +145,14 @@ func (bq *BatchQueue) Load(ctx context.Context) error {
 		return fmt.Errorf("error querying datastore: %w", err)
 	}
 	defer results.Close()
+
+	type walEntry struct {
+		key    ds.Key
+		seq    uint64
+		hasSeq bool
+		batch  coresequencer.Batch
+	}
+	var entries []walEntry
 
 	// Load each batch
 	for result := range results.Next() {
@@ -134,7 +166,30 @@ func (bq *BatchQueue) Load(ctx context.Context) error {
 			fmt.Printf("Error decoding batch for key '%s': %v. Skipping entry.\n", result.Key, err)
 			continue
 		}
-		bq.queue = append(bq.queue, coresequencer.Batch{Transactions: pbBatch.Txs})
+		key := ds.NewKey(result.Key)
+		seq, hasSeq := parseSeqKey(key)
+		entries = append(entries, walEntry{key: key, seq: seq, hasSeq: hasSeq, batch: coresequencer.Batch{Transactions: pbBatch.Txs}})
+	}
+
+	// Restore the order of acceptance: the iteration order of the datastore is not part of its
+	// contract. Records without a sequence number were written by an older version (keyed by
+	// batch hash) and therefore precede every numbered record.
+	sort.SliceStable(entries, func(i, j int) bool {
+		a, b := entries[i], entries[j]
+		if a.hasSeq != b.hasSeq {
+			return !a.hasSeq
+		}
+		if a.hasSeq {
+			return a.seq < b.seq
+		}
+		return a.key.String() < b.key.String()
+	})
+	for _, e := range entries {
+		bq.queue = append(bq.queue, e.batch)
+		bq.keys = append(bq.keys, e.key)
+		if e.hasSeq && e.seq >= bq.nextSeq {
+			bq.nextSeq = e.seq + 1
+		}
 	}
 
 	return nil
